@@ -320,6 +320,40 @@ Theorem C16_token_key_noninterference : forall verify ks raw raw', bytes_ok raw 
 Proof. exact token_noninterference. Qed.
 Print Assumptions C16_token_key_noninterference.
 
+(* ---------------- RTM volume ---------------- *)
+
+(* ValidateRTM from the extracted entries on.  A valid verdict: the OEM key is a usable 2048/4096-bit
+   RSA key and the oracle accepted exactly volume ++ (level 1 directory, at level 2 only) ++ directory
+   of the level, under the byte-reversed signature entry *)
+Theorem C16_rtm_signed_data : forall verify level rtm l1 ln sg k,
+  validate_rtm verify level rtm l1 ln sg k = Ok tt ->
+  psb_key_valid k = true /\
+  exists n e, psb_key_get k = PubRSA n e /\ (bytelen n * 8 = 4096 \/ bytelen n * 8 = 2048) /\
+              verify (PubRSA n e) c16_alg_rsapss (psb_hash_of n)
+                     (rtm ++ (if level =? 2 then l1 else []) ++ ln) (psb_reverse sg) = true.
+Proof. exact validate_rtm_ok_inv. Qed.
+Print Assumptions C16_rtm_signed_data.
+
+(* at level 1 the level 1 directory enters once (as the directory of the level), nothing else of it *)
+Theorem C16_rtm_level1 : forall verify level rtm l1 l1' ln sg k, level <> 2 ->
+  validate_rtm verify level rtm l1 ln sg k = validate_rtm verify level rtm l1' ln sg k.
+Proof. exact validate_rtm_level1. Qed.
+Print Assumptions C16_rtm_level1.
+
+(* IDEALISATION (hypothesis, as in C16_ks_verify_binding): a signature value is valid for at most one
+   key and message.  Then two valid verdicts over the same signature entry have the same key and the
+   same signed bytes: no bit of the volume or of the directories can change *)
+Theorem C16_rtm_binding : forall verify,
+  (forall k sc h m k' sc' h' m' s, verify k sc h m s = true -> verify k' sc' h' m' s = true ->
+                                   k = k' /\ m = m') ->
+  forall level rtm l1 ln level' rtm' l1' ln' sg k k',
+    validate_rtm verify level rtm l1 ln sg k = Ok tt ->
+    validate_rtm verify level' rtm' l1' ln' sg k' = Ok tt ->
+    psb_key_get k = psb_key_get k' /\
+    rtm_signed_data level rtm l1 ln = rtm_signed_data level' rtm' l1' ln'.
+Proof. exact validate_rtm_binding. Qed.
+Print Assumptions C16_rtm_binding.
+
 (* ---- non-vacuity: concrete inputs meet the hypotheses ---- *)
 
 Definition ex_n : Z := 2 ^ 255 + 12345.
@@ -384,6 +418,17 @@ Example ex_psb : zlen ex_psb_hdr = 256 /\
   psp_cover [ex_psb_key] ex_psb_raw = [(0, 208); (0, 272); (280, 536)] /\
   psp_validate ex_psb_verify [ex_psb_key] (splice 275 [255] ex_psb_raw) = Ok ex_psb_key /\
   psp_validate ex_psb_verify [ex_psb_key] (splice 100 [255] ex_psb_raw) = Err P_SIGCHECK.
+Proof. vm_compute. repeat split; reflexivity. Qed.
+
+(* RTM volume [1;2;3], level 1 directory [7;7], level 2 directory [9], signature entry [4;5] (stored reversed):
+   valid at level 2, not at level 1 (the level 1 directory is not part of the data there), and not with a
+   changed byte of the level 1 directory *)
+Definition ex_rtm_verify (pk : pubkey) (sc h : Z) (m s : bytes) : bool :=
+  bytes_eqb m [1; 2; 3; 7; 7; 9] && bytes_eqb s [5; 4] && (h =? c16_alg_sha256).
+Example ex_rtm :
+  validate_rtm ex_rtm_verify 2 [1; 2; 3] [7; 7] [9] [4; 5] ex_psb_key = Ok tt /\
+  validate_rtm ex_rtm_verify 1 [1; 2; 3] [7; 7] [9] [4; 5] ex_psb_key = Err P_SIGCHECK /\
+  validate_rtm ex_rtm_verify 2 [1; 2; 3] [7; 6] [9] [4; 5] ex_psb_key = Err P_SIGCHECK.
 Proof. vm_compute. repeat split; reflexivity. Qed.
 
 (* re-signing: a structure holding an RSAPSS/SHA-384 signature, signed again with detection
